@@ -148,6 +148,27 @@ pub fn oracle_c07(cfg: &EwCfg, tr: &EwTrace, expect_echo: bool) -> Vec<Violation
             for e in tr.cev[i].iter() { if let Ev::Error(k) = e.ev { if k != 2 && k != 0 { out.push(viol("C07.config", "C07.config:wrong-error".into(), format!("client {} was refused with {} instead of Error(Config)", i, ev_name(&e.ev)))); } } }
         }
     }
+    // negotiated limits: once both ends report the connection, each sender's limits are the ones its peer is configured with
+    // (receive allocation rounded up to whole fragments, rate = min(own max_send_rate, peer max_receive_rate))
+    let ceil = |n: usize| (n + 1447) / 1448 * 1448;
+    for i in 0..n {
+        if tr.gens[i] != 1 { continue; }
+        if let Some(o) = tr.obs.iter().find(|o| o.c_active[i] && o.s_active[i] && o.c_probe[i].is_some() && o.s_probe[i].is_some()) {
+            let (cp, sp) = (o.c_probe[i].as_ref().unwrap(), o.s_probe[i].as_ref().unwrap());
+            let (cc, sc) = (&cfg.clients[i], &cfg.server);
+            let checks: [(&str, u64, u64); 6] = [
+                ("client send allocation limit vs. server max_receive_alloc", cp.tx_alloc_limit as u64, ceil(sc.max_receive_alloc) as u64),
+                ("server send allocation limit vs. client max_receive_alloc", sp.tx_alloc_limit as u64, ceil(cc.max_receive_alloc) as u64),
+                ("client receive allocation limit vs. its own max_receive_alloc", cp.rx_alloc_limit as u64, ceil(cc.max_receive_alloc) as u64),
+                ("server receive allocation limit vs. its own max_receive_alloc", sp.rx_alloc_limit as u64, ceil(sc.max_receive_alloc) as u64),
+                ("client send rate ceiling vs. min(client max_send_rate, server max_receive_rate)", cp.tx_rate_limit as u64, (cc.max_send_rate as u64).min(sc.max_receive_rate as u64)),
+                ("server send rate ceiling vs. min(server max_send_rate, client max_receive_rate)", sp.tx_rate_limit as u64, (sc.max_send_rate as u64).min(cc.max_receive_rate as u64)),
+            ];
+            for (what, got, want) in checks {
+                if got != want { out.push(viol("C07.limits", "C07.limits".into(), format!("connection {} (round {}): {}: {} in force, {} configured", i, o.round, what, got, want))); break; }
+            }
+        }
+    }
     if expect_echo {
         // every Reliable packet sent by a client that stayed connected must have reached the server application and vice versa
         for i in 0..n {
